@@ -9,6 +9,7 @@ operation, and the observed state after it (or the kind of exception).  The mode
 observed before-state, so the steps of a sequence are checked in lock-step.
 """
 import itertools
+import signal
 from copy import deepcopy
 
 from common import c_bool, c_list
@@ -164,6 +165,27 @@ def make_shape(w, heap, shape):
     raise ValueError(shape)
 
 
+class StepTimeout(BaseException):
+    """an editing operation did not return (reported as an exception of the operation)"""
+
+
+class Watchdog:
+    def __init__(self, seconds):
+        self.seconds = seconds
+
+    def _fire(self, signum, frame):
+        raise StepTimeout('operation did not return within %.0f s' % self.seconds)
+
+    def __enter__(self):
+        self.old = signal.signal(signal.SIGALRM, self._fire)
+        signal.setitimer(signal.ITIMER_REAL, self.seconds)
+
+    def __exit__(self, *a):
+        signal.setitimer(signal.ITIMER_REAL, 0)
+        signal.signal(signal.SIGALRM, self.old)
+        return False
+
+
 def exn_kind(ex):
     if isinstance(ex, ValueError):
         return 'ValueError'
@@ -224,8 +246,9 @@ def step(w, graph, desc):
         raise ValueError(desc)
     rec = {'heap': heap, 'g': g, 'op': coq, 'kind': kind, 'desc': desc}
     try:
-        call()
-    except Exception as ex:  # noqa
+        with Watchdog(3.0):
+            call()
+    except (Exception, StepTimeout) as ex:  # noqa
         rec['raise'] = exn_kind(ex)
         rec['msg'] = '%s: %s' % (type(ex).__name__, str(ex)[:80])
         return rec
@@ -283,16 +306,23 @@ def shapes_for(g, op, target=None, rich=True):
 
 
 def applicable(heap, g, rich=True):
+    """rich: True = full alphabet of inserted shapes, False = without the diamond,
+    'min' = one fresh node and one relatives copy only"""
     ops = []
-    for s in shapes_for(g, 'add', None, rich):
+
+    def shapes(op, target):
+        if rich == 'min':
+            return [('single',)] + ([('copy', target if target is not None else g[0])] if g else [])
+        return shapes_for(g, op, target, rich)
+    for s in shapes('add', None):
         ops.append(('add', s))
     for r in g:
         for m in ('none', 'single', 'all'):
             ops.append(('del', r, m))
         ops.append(('delsub', r))
-        for s in shapes_for(g, 'updnode', r, rich):
+        for s in shapes('updnode', r):
             ops.append(('updnode', r, s))
-        for s in shapes_for(g, 'updsub', r, rich):
+        for s in shapes('updsub', r):
             ops.append(('updsub', r, s))
     for p in g:
         for c in g:
@@ -302,9 +332,11 @@ def applicable(heap, g, rich=True):
     return ops
 
 
-def dags(n):
-    """all DAGs on n nodes whose labelling is topological (parents have smaller index)"""
-    slots = [[tuple(c) for k in range(i + 1) for c in itertools.combinations(range(i), k)] for i in range(n)]
+def dags(n, descending=False):
+    """all DAGs on n nodes whose labelling is topological (parents have smaller index); the parent
+    lists are ascending or descending (the order of nodes_from is observable by the operations)"""
+    slots = [[tuple(reversed(c)) if descending else tuple(c)
+              for k in range(i + 1) for c in itertools.combinations(range(i), k)] for i in range(n)]
     return [tuple(p) for p in itertools.product(*slots)] if n else [()]
 
 
@@ -374,7 +406,7 @@ def random_gspec(rng, n):
     plists = []
     for i in range(n):
         k = min(i, rng.choice([0, 1, 1, 2, 2, 3]))
-        plists.append(tuple(sorted(rng.sample(range(i), k))))
+        plists.append(tuple(rng.sample(range(i), k)))
     order = list(range(n))
     rng.shuffle(order)
     return tuple(plists), tuple(order)
@@ -476,19 +508,25 @@ def run(ctx):
     col = Collector(ctx)
     rng = ctx.rng
     thorough = ctx.tier == 'thorough'
-    # 1. exhaustive single steps on all DAGs <= 4 nodes (thorough: both constructor orders for 4 nodes too)
+    # 1. exhaustive single steps on all DAGs <= 4 nodes; constructor order x order of the parent lists
+    #    (quick, 4 nodes: full alphabet on forward/ascending, reduced alphabet on reverse/descending)
     for n in range(0, 5):
-        for pl in dags(n):
-            orders = [tuple(range(n))]
-            if n > 1 and (thorough or n < 4):
-                orders.append(tuple(reversed(range(n))))
-            for order in orders:
-                explore(col, 'exhaustive-1', (pl, order), 1, True)
+        for desc in ((False, True) if n > 2 else (False,)):
+            for pl in dags(n, desc):
+                fwd, rev = tuple(range(n)), tuple(reversed(range(n)))
+                if n <= 1:
+                    variants = [(fwd, True)]
+                elif thorough or n < 4:
+                    variants = [(fwd, True), (rev, True)]
+                else:
+                    variants = [(rev, 'min')] if desc else [(fwd, True)]
+                for order, rich in variants:
+                    explore(col, 'exhaustive-1', (pl, order), 1, rich)
     ctx.set_exhaustive('exhaustive-1', True)
     # 2. sequences of length 2 (and 3)
     if thorough:
         for n in range(1, 4):
-            for pl in dags(n):
+            for pl in dict.fromkeys(dags(n) + dags(n, True)):
                 explore(col, 'sequences', (pl, tuple(range(n))), 2, False, rng, None)
         for pl in dags(4):
             explore(col, 'sequences', (pl, tuple(range(4))), 2, False, rng, 10)
